@@ -416,6 +416,40 @@ class FakeSerial(object):
         pass
 
 
+class ByteSerial(object):
+    """A serial port (pyserial look-alike) with the chip behind it: what the chip sends is a byte stream,
+    read(n) returns at most n bytes and fewer when the stream ends (= the read timed out)."""
+
+    def __init__(self, chip, clock):
+        self.chip, self.clock = chip, clock
+        self.buf = bytearray()
+        self.timeout = 0.05
+        self.baudrate = 115200
+        self.port = "/dev/ttySIM"
+
+    def write(self, data):
+        for x in self.chip.host_write(bytes(data)):
+            if not isinstance(x, tuple):
+                self.buf += x
+        return len(data)
+
+    def read(self, n=1):
+        out = bytes(self.buf[:n])
+        del self.buf[:n]
+        if len(out) < n:
+            self.clock.advance(self.timeout or 0)
+        return out
+
+    def flushInput(self):
+        del self.buf[:]
+
+    def flushOutput(self):
+        pass
+
+    def close(self):
+        pass
+
+
 class ArygonTransport(FrameTransport):
     """Arygon ADRA/ADRB: TAMA frames are written as b'2' + frame; answers come back unwrapped."""
 
